@@ -9,6 +9,7 @@ import (
 	"fmt"
 	"runtime/debug"
 	"strings"
+	"time"
 
 	"verifharness/ref"
 	"verifharness/world"
@@ -209,4 +210,25 @@ func runVerify(c *world.Case, o *verify.Options, g *world.Getter) Outcome {
 	out.AsCRLUnavailable = errors.As(err, &ce)
 	out.AsRecreation = errors.As(err, &re)
 	return out
+}
+
+
+// GuardTimed runs f like Guard but gives up waiting after d: hung reports that f had not returned by then
+// (its goroutine is left behind). A first time-out is only a suspicion — on a loaded machine slow is not hung —
+// so callers re-run the same input alone with a much larger budget before calling it a hang.
+func GuardTimed(f func(), d time.Duration) (pv, stack string, hung bool) {
+	type res struct{ pv, st string }
+	done := make(chan res, 1)
+	go func() {
+		p, s := Guard(f)
+		done <- res{p, s}
+	}()
+	t := time.NewTimer(d)
+	defer t.Stop()
+	select {
+	case r := <-done:
+		return r.pv, r.st, false
+	case <-t.C:
+		return "", "", true
+	}
 }
